@@ -13,7 +13,11 @@ if [ ! -x "$INSTR" ] || [ "$V/tools/instr/main.go" -nt "$INSTR" ]; then
   ( cd "$V/tools/instr" && GOFLAGS= GOTOOLCHAIN=local go1.26 build -o "$INSTR" . )
 fi
 rm -rf "$OUT"; mkdir -p "$OUT"
-"$INSTR" "$REPO" "$OUT" \
+# every other non-test file that uses sync.Pool gets the adversarial pool model (engine/vpool: storage is
+# poisoned at Put, so a use after Put is a deterministic corruption instead of a rare interleaving)
+POOLFILES=$(cd "$REPO" && grep -rl --include='*.go' 'sync\.Pool' . 2>/dev/null | grep -v '_test\.go$' | grep -v '^./internal/zzverif/' | sed 's|^\./||' \
+  | grep -v -x -e internal/martian/proxy.go -e proxyproto/net.go -e conntrack/conntrack.go -e internal/martian/h2/relay.go -e pac/pool.go -e internal/martian/mitm/mitm.go | sed 's|$|::@poolonly|')
+"$INSTR" "$REPO" "$OUT" $POOLFILES \
   'internal/martian/proxy.go::::@range|Close|p.conns|func(c net.Conn) string { return c.RemoteAddr().String() }' \
   proxyproto/net.go \
   conntrack/conntrack.go \
